@@ -35,10 +35,11 @@ def demo_plan(base):
     files = [f for f in os.listdir(os.path.join(base, 'demo')) if f != 'WHERE.txt' and not f.endswith('.log')]
     copies = []
     for f in files:
-        m = re.search(r'([\w./-]*/' + re.escape(f) + r')', where)
-        if not m:
+        ms = [x.lstrip('./') for x in re.findall(r'([\w./-]*/' + re.escape(f) + r')', where)]
+        ms = [x for x in ms if not x.startswith('demo/')] or ms
+        if not ms:
             raise SystemExit(f'no target path for {f} in WHERE.txt')
-        copies.append((f, m.group(1).lstrip('./')))
+        copies.append((f, ms[0]))
     cmd = None
     for line in where.splitlines():
         if 'go test' in line or 'go run' in line:
@@ -99,12 +100,52 @@ def validate(pid, mk):
         drop(d)
 
 
+def repaired(pid, mk, patch):
+    """a behaviour-preserving counterpart of a seeded change (kept under /verif/refactorings): the
+    seeded change's demonstration must pass with it, and so must the existing suite."""
+    base = os.path.join(SRC, pid + '-out', mk)
+    copies, cmd = demo_plan(base)
+    d = worktree()
+    res = {'patch': patch, 'demo_of': f'{pid}-{mk}', 'demo_cmd': cmd}
+    try:
+        rc, out = sh('git apply ' + patch, d)
+        res['applies'] = rc == 0
+        if rc != 0:
+            return res
+        rc, out = sh('go build ./... && go vet ./... 2>&1 | tail -3', d)
+        res['builds'] = rc == 0
+        for f, tgt in copies:
+            os.makedirs(os.path.dirname(os.path.join(d, tgt)), exist_ok=True)
+            shutil.copy(os.path.join(base, 'demo', f), os.path.join(d, tgt))
+        fails = 0
+        for i in range(2):
+            rc, out = sh(cmd, d)
+            if rc != 0:
+                fails += 1
+                res['demo_tail'] = out[-900:]
+        res['demo_fails'] = f'{fails}/2'
+        for f, tgt in copies:
+            os.remove(os.path.join(d, tgt))
+        sh('git checkout -- go.mod go.sum', d)
+        for attempt in (1, 2):
+            rc, out = sh('go test -mod=mod -vet=off -count=1 -timeout 25m ./...', d, timeout=2400)
+            res['suite'] = 'pass' if rc == 0 else 'FAIL'
+            if rc == 0:
+                break
+            res['suite_tail'] = out[-1500:]
+        res['preserving'] = bool(res['builds'] and fails == 0 and res['suite'] == 'pass')
+        return res
+    finally:
+        drop(d)
+
+
 def do_import(pid, mk):
     base = os.path.join(SRC, pid + '-out', mk)
     v = json.load(open(os.path.join(base, 'VALIDATION.json')))
     if not v.get('valid'):
         raise SystemExit('not validated')
-    dst = os.path.join('/verif/seeded', f'{pid}-{mk}')
+    tag = os.environ.get('SEED_TAG', '')
+    dst = os.path.join('/verif/seeded', f'{pid}-{tag}{mk}')
     os.makedirs(dst, exist_ok=True)
     shutil.copy(os.path.join(base, 'patch.diff'), os.path.join(dst, 'patch.diff'))
     if os.path.isdir(os.path.join(dst, 'demo')):
@@ -122,7 +163,7 @@ def do_import(pid, mk):
         'what_i_ran': 'seedtool.py validate: fresh scratch worktree of /repo HEAD; demo on unchanged code (pass); git apply patch; go build+vet; full existing suite (pass); demo x3 with the change (fail)',
     })
     table = json.load(open('/verif/seeds_table.json'))
-    meta.update(table.get(f'{pid}-{mk}', {}))
+    meta.update(table.get(f'{pid}-{tag}{mk}', {}))
     meta.setdefault('needs_to_manifest', '(see AUTHOR_README.md)')
     json.dump(meta, open(meta_p, 'w'), indent=1)
     print('imported', dst)
@@ -130,6 +171,11 @@ def do_import(pid, mk):
 
 if __name__ == '__main__':
     op, pid, mk = sys.argv[1], sys.argv[2], sys.argv[3]
+    if op == 'repaired':
+        r = repaired(pid, mk, sys.argv[4])
+        json.dump(r, open(os.path.join(os.path.dirname(sys.argv[4]), 'CHECKED.json'), 'w'), indent=1)
+        print(sys.argv[4], 'PRESERVING' if r.get('preserving') else 'NOT-PRESERVING', {k: r.get(k) for k in ('applies', 'builds', 'demo_fails', 'suite')})
+        sys.exit(0)
     if op == 'validate':
         r = validate(pid, mk)
         json.dump(r, open(os.path.join(SRC, pid + '-out', mk, 'VALIDATION.json'), 'w'), indent=1)
